@@ -293,6 +293,28 @@ example :
       (List.range d.size).map (fun n => Spec.matchesFn d p n) = [false, false, false, false, false, true] := by
   decide
 
+/-- **`child::x` ≡ `x` and `attribute::x` ≡ `@x`, in every position.**  `compilePathW` follows the parallel branches
+of `XPathProcessorImpl::AbbreviatedNodeTestStep` (axis spelled out or abbreviated; reached with the name as current
+token, or with a `/` still pending — the second slash of `//`, the slash after id()/key()); whichever branch
+compiles a step, the op codes — in particular the any-ancestor re-flagging when `//` follows, which needs
+`matchTypePos` recorded — are those of the pattern with every axis abbreviated, the defining expression selects the
+same nodes, and so the match result is the same.  The op codes of `compilePathW`/`compileFnW` are compared with
+the real op map step by step on every run. -/
+theorem explicit_axis_irrelevant (d : Doc) (p : Path) (fp : FnPath) (n : Nat) :
+    compilePathW p = compilePathW p.abbrev ∧ compilePathW p = compilePath p ∧ compileFnW fp = compileFn fp ∧
+    Spec.matchesPath d p.abbrev n = Spec.matchesPath d p n ∧
+    lpp v d (compilePath p.abbrev) n = lpp v d (compilePath p) n := by
+  refine ⟨?_, compilePathW_eq p, compileFnW_eq fp, matchesPath_abbrev d p n, ?_⟩
+  · rw [compilePathW_eq, compilePathW_eq, compilePath_abbrev]
+  · rw [compilePath_abbrev]
+
+/-- non-vacuity: `doc//child::blk//p` compiles to `A A I`, like `doc//blk//p` -/
+example :
+    let e (nmv : String) : Step := { attrAxis := false, test := .name nmv, preds := [], explicit := true }
+    let p : Path := ⟨false, [(.child, nm "doc"), (.desc, e "blk"), (.desc, nm "p")]⟩
+    (compilePathW p).map (·.code) = [.anyAnc, .anyAnc, .immAnc] ∧ p.abbrev ≠ p := by
+  decide
+
 /-- non-vacuity of `match_implies_select_partial`: `z/a//b` (outside `InClass`) on `<z><a><b/></a></z>` matches `b`. -/
 example :
     let d : Doc := { nodes := [⟨.root, "", 0⟩, ⟨.elem, "z", 0⟩, ⟨.elem, "a", 1⟩, ⟨.elem, "b", 2⟩] }
